@@ -31,13 +31,16 @@ func init() {
 
 // ---------------------------------------------------------------- attributes
 
-// attribute codes shared with Coq (coq/C37/Model.v: a_label = 0, a_shape = 1, a_font = 18)
+// attribute codes shared with Coq (coq/C37/Model.v: a_label = 0, a_shape = 1, a_font = 18, arrowhead shapes 34 / 37)
 var c37AttrKeys = []string{
 	"label", "shape", "style.fill", "style.stroke", "style.opacity", "tooltip", "link", "width", "height", "near",
 	"style.animated", "style.stroke-dash", "style.stroke-width", "style.border-radius", "style.shadow", "style.3d",
 	"style.multiple", "style.double-border", "style.font", "style.font-size", "style.font-color", "style.bold",
 	"style.italic", "style.underline", "style.fill-pattern", "style.text-transform", "style.filled", "icon",
 	"direction", "top", "left", "classes", "language", "label.near",
+	// connections only: attributes of the two arrowheads (codes 34-39; 34 and 37 are keyword-valued)
+	"source-arrowhead.shape", "source-arrowhead.label", "source-arrowhead.style.filled",
+	"target-arrowhead.shape", "target-arrowhead.label", "target-arrowhead.style.filled",
 }
 
 func c37AttrCode(k string) int {
@@ -136,6 +139,32 @@ type c37PGraph struct {
 	byObj map[*d2graph.Object]*c37PObj
 }
 
+// c37ArrowheadAttrs: what is declared for one arrowhead of a connection (nil = not customised)
+func c37ArrowheadAttrs(side string, a *d2graph.Attributes) [][2]string {
+	if a == nil {
+		return nil
+	}
+	var out [][2]string
+	if a.Shape.MapKey != nil || a.Shape.Value != "" {
+		out = append(out, [2]string{side + ".shape", a.Shape.Value})
+	}
+	if a.Label.MapKey != nil || a.Label.Value != "" {
+		out = append(out, [2]string{side + ".label", a.Label.Value})
+	}
+	if a.Style.Filled != nil {
+		out = append(out, [2]string{side + ".style.filled", a.Style.Filled.Value})
+	}
+	return out
+}
+
+func c37EdgeAttrs(e *d2graph.Edge) [][2]string {
+	out := c37Attrs(&e.Attributes, true)
+	out = append(out, c37ArrowheadAttrs("source-arrowhead", e.SrcArrowhead)...)
+	out = append(out, c37ArrowheadAttrs("target-arrowhead", e.DstArrowhead)...)
+	sort.SliceStable(out, func(i, j int) bool { return c37AttrCode(out[i][0]) < c37AttrCode(out[j][0]) })
+	return out
+}
+
 func c37Project(g *d2graph.Graph) *c37PGraph {
 	pg := &c37PGraph{byObj: map[*d2graph.Object]*c37PObj{}}
 	var walk func(o *d2graph.Object, par *c37PObj)
@@ -161,7 +190,7 @@ func c37Project(g *d2graph.Graph) *c37PGraph {
 	walk(g.Root, nil)
 	for i, e := range g.Edges {
 		pe := &c37PEdge{Lbl: i + 1, ID: e.AbsID(), SA: e.SrcArrow, DA: e.DstArrow, Idx: e.Index, edge: e,
-			Attrs: c37Attrs(&e.Attributes, true), Src: pg.byObj[e.Src], Dst: pg.byObj[e.Dst]}
+			Attrs: c37EdgeAttrs(e), Src: pg.byObj[e.Src], Dst: pg.byObj[e.Dst]}
 		pg.Edges = append(pg.Edges, pe)
 	}
 	return pg
@@ -408,7 +437,13 @@ var c37ObjSetAttrs = []string{"label", "label", "label", "label", "shape", "shap
 	"style.double-border", "style.font", "style.font-size", "style.font-color", "style.bold", "style.italic", "style.underline",
 	"style.fill-pattern", "style.text-transform"}
 var c37EdgeSetAttrs = []string{"label", "label", "label", "style.stroke", "style.opacity", "style.stroke-dash", "style.stroke-width",
-	"style.animated", "style.font-size", "style.font-color", "style.bold", "style.italic", "style.underline"}
+	"style.animated", "style.font-size", "style.font-color", "style.bold", "style.italic", "style.underline",
+	"source-arrowhead.shape", "source-arrowhead.label", "source-arrowhead.style.filled",
+	"target-arrowhead.shape", "target-arrowhead.label", "target-arrowhead.style.filled",
+	"source-arrowhead.shape", "source-arrowhead.label", "target-arrowhead.shape", "target-arrowhead.label"}
+
+var c37ArrowShapes = []string{"diamond", "circle", "arrow", "triangle", "box", "cross", "cf-one", "cf-many", "cf-one-required", "cf-many-required",
+	"filled-diamond", "unfilled-triangle", "none", "Diamond", "CIRCLE"}
 
 func c37SetValue(r *Rng, attr string) string {
 	if attr != "link" && r.Chance(0.06) { // mostly refused by the compiler for non-string attributes (a link that is not a URL is a board link, dropped when the board does not exist)
@@ -416,6 +451,18 @@ func c37SetValue(r *Rng, attr string) string {
 		return s
 	}
 	switch attr {
+	case "source-arrowhead.shape", "target-arrowhead.shape":
+		return r.Pick(c37ArrowShapes)
+	case "source-arrowhead.style.filled", "target-arrowhead.style.filled":
+		return r.Pick([]string{"true", "false"})
+	case "source-arrowhead.label", "target-arrowhead.label":
+		if r.Chance(0.5) {
+			s, _ := c05RandStr(r)
+			if s != "" {
+				return s
+			}
+		}
+		return r.Pick([]string{"1", "*", "many", "0..1", "x y"})
 	case "label", "tooltip":
 		if r.Chance(0.75) {
 			s, _ := c05RandStr(r)
@@ -714,6 +761,30 @@ func c37KF(g *d2graph.Graph, pg *c37PGraph, op *c37Op) []string {
 			kf = append(kf, "C37-create-indexed-edge-key")
 		}
 	case "set-edge":
+		if op.Key != op.tedge.ID { // key of the form (a -> b)[i].<reserved...>
+			// the first reference of the connection that has a map is an edge-key reference with a key of its
+			// own (`(a -> b)[0].target-arrowhead: {...}`): _set takes that map for the connection's map
+			for _, ref := range op.tedge.edge.References {
+				if ref.MapKey == nil || ref.MapKey.Value.Map == nil {
+					continue
+				}
+				if ref.MapKey.EdgeKey != nil {
+					kf = append(kf, "C37-set-edge-key-reference-map-taken-as-edge-map")
+				}
+				break
+			}
+			// the attribute is declared twice by flat edge-key references: the first (overridden) one is rewritten
+			n := 0
+			for _, ref := range op.tedge.edge.References {
+				if ref.MapKey != nil && ref.MapKey.EdgeKey != nil && ref.MapKey.EdgeIndex != nil && len(ref.MapKey.Edges) == 1 &&
+					strings.Join(d2graph.Key(ref.MapKey.EdgeKey), ".") == op.attr {
+					n++
+				}
+			}
+			if n >= 2 {
+				kf = append(kf, "C37-set-edge-attribute-declared-twice")
+			}
+		}
 		// the connection's label is declared by a `label` field inside its map: `a -> b: {label: x}`
 		if op.attr == "label" {
 			for _, ref := range op.tedge.edge.References {
@@ -779,6 +850,93 @@ func c37History(r *Rng, text string, steps int, class string, otherShare float64
 	return out
 }
 
+// c37Decorate customises arrowheads of some connections of a generated diagram, mostly on ONE side only, in
+// the textual forms d2 offers: edge-key references, a map on the arrowhead key, dotted keys inside the
+// connection's map (the latter two only for connections written with a plain label).
+func c37Decorate(r *Rng, text string) string {
+	g, err := c38Compile(text)
+	if err != nil || len(g.Edges) == 0 {
+		return text
+	}
+	out := text
+	for k := r.Range(1, 3); k > 0; k-- {
+		e := g.Edges[r.Intn(len(g.Edges))]
+		sides := []string{"target-arrowhead"}
+		switch r.Intn(5) {
+		case 0:
+			sides = []string{"source-arrowhead"}
+		case 1:
+			sides = []string{"source-arrowhead", "target-arrowhead"}
+		}
+		for _, side := range sides {
+			switch r.Intn(3) {
+			case 0:
+				out += fmt.Sprintf("%s.%s.shape: %s\n", e.AbsID(), side, r.Pick(c37ArrowShapes[:12]))
+			case 1:
+				out += fmt.Sprintf("%s.%s: %s {\n  shape: %s\n  style.filled: %s\n}\n", e.AbsID(), side, r.Pick([]string{"1", "many", "n"}),
+					r.Pick(c37ArrowShapes[:12]), r.Pick([]string{"true", "false"}))
+			default:
+				out += fmt.Sprintf("%s.%s.label: %s\n", e.AbsID(), side, r.Pick([]string{"1", "many", "0..n"}))
+			}
+		}
+	}
+	if _, err := c38Compile(out); err != nil {
+		return text
+	}
+	return out
+}
+
+var c37ArrowCorpus = []string{
+	"a: L1\nb: L2\na <-> b: E1 {\n  target-arrowhead.shape: circle\n}\nb -> a: E2\n",
+	"a: L1\nb: L2\na <-> b: E1 {\n  target-arrowhead: {\n    label: many\n    shape: cf-many\n  }\n}\nb -- a: E2 {\n  source-arrowhead: 1 {\n    shape: diamond\n    style.filled: true\n  }\n}\n",
+	"a: L1 {\n  c: L3\n}\nb: L2\na.c -> b: E1\n(a.c -> b)[0].target-arrowhead.style.filled: false\n(a.c -> b)[0].target-arrowhead.shape: diamond\nb <- a: {\n  label: E2\n  source-arrowhead.label: x\n}\n",
+}
+
+// c37ArrowHistory: only Set steps on arrowhead attributes (plus a few connection creations), so that
+// arrowheads are built up side by side and attribute by attribute.
+func c37ArrowHistory(r *Rng, text string, steps int, class string) []Case {
+	var out []Case
+	g, err := c38Compile(text)
+	if err != nil {
+		return nil
+	}
+	for s := 0; s < steps; s++ {
+		pg := c37Project(g)
+		var op *c37Op
+		if len(pg.Edges) == 0 || r.Chance(0.15) {
+			op = c37PickOp(r, pg, "create-edge")
+		} else {
+			e := pg.Edges[r.Intn(len(pg.Edges))]
+			if e.Src == nil || e.Dst == nil {
+				continue
+			}
+			attr := r.Pick(c37EdgeSetAttrs[13:])
+			op = &c37Op{Kind: "set-edge", Key: e.ID + "." + attr, Val: c37SetValue(r, attr), tedge: e, attr: attr}
+		}
+		if op == nil {
+			continue
+		}
+		before := d2format.Format(g.AST)
+		kf := c37KF(g, pg, op)
+		res := c37Apply(g, nil, op)
+		next := before
+		if res.err == nil && res.g != nil {
+			next = d2format.Format(res.g.AST)
+		}
+		c := c37Case(pg, op, res, class, before, s)
+		c.KF = kf
+		out = append(out, c)
+		if len(c.ImplFail) > 0 {
+			break
+		}
+		g, err = c38Compile(next)
+		if err != nil {
+			break
+		}
+	}
+	return out
+}
+
 type c37Script struct {
 	text, kind, key, val string
 }
@@ -823,6 +981,23 @@ var c37Scripts = []c37Script{
 	{c38Corpus[0], "set-edge", "a.(b -> c.d)[0].style.animated", "TRUE"},
 	{c38Corpus[4], "set-edge", "(a.b.c -> d)[0].style.stroke", "green"},
 	{c38Corpus[4], "set-edge", "(a.b.c -> d)[0]", "  padded  "},
+	// arrowheads: the other side already customised / not yet customised, every textual form
+	{c37ArrowCorpus[0], "set-edge", "(a <-> b)[0].source-arrowhead.shape", "diamond"},
+	{c37ArrowCorpus[0], "set-edge", "(a <-> b)[0].target-arrowhead.shape", "Diamond"},
+	{c37ArrowCorpus[0], "set-edge", "(a <-> b)[0].source-arrowhead.label", "one"},
+	{c37ArrowCorpus[0], "set-edge", "(b -> a)[0].target-arrowhead.style.filled", "false"},
+	{c37ArrowCorpus[1], "set-edge", "(a <-> b)[0].source-arrowhead.label", "one"},
+	{c37ArrowCorpus[1], "set-edge", "(a <-> b)[0].source-arrowhead.shape", "cf-one"},
+	{c37ArrowCorpus[1], "set-edge", "(a <-> b)[0].source-arrowhead.style.filled", "true"},
+	{c37ArrowCorpus[1], "set-edge", "(b -- a)[0].target-arrowhead.label", "n"},
+	{c37ArrowCorpus[1], "set-edge", "(b -- a)[0].target-arrowhead.shape", "box"},
+	{c37ArrowCorpus[1], "set-edge", "(b -- a)[0].target-arrowhead.style.filled", "false"},
+	{c37ArrowCorpus[2], "set-edge", "(a.c -> b)[0].source-arrowhead.shape", "circle"},
+	{c37ArrowCorpus[2], "set-edge", "(a.c -> b)[0].source-arrowhead.style.filled", "true"},
+	{c37ArrowCorpus[2], "set-edge", "(b <- a)[0].target-arrowhead.label", "y"},
+	// recorded findings (minimal inputs)
+	{"a: L1\nb: L2\na -> b: E1\n(a -> b)[0].target-arrowhead: many {\n  shape: diamond\n}\n", "set-edge", "(a -> b)[0].source-arrowhead.style.filled", "false"},
+	{"a: L1\nb: L2\na -> b: E1\n(a -> b)[0].target-arrowhead.label: 1\n(a -> b)[0].target-arrowhead.label: many\n", "set-edge", "(a -> b)[0].target-arrowhead.label", "x"},
 }
 
 func c37Scripted() []Case {
@@ -896,9 +1071,21 @@ func c37Gen(r *Rng, tier string, n int) []Case {
 			out = append(out, c37History(r.Fork(), t, 8, "corpus", 0.15)...)
 		}
 	}
+	for _, t := range c37ArrowCorpus {
+		for k := 0; k < 3; k++ {
+			out = append(out, c37ArrowHistory(r.Fork(), t, 8, "arrow-corpus")...)
+		}
+	}
 	for len(out) < n {
 		rich := r.Intn(3)
 		text := c38GenDiagram(r, rich)
+		if r.Chance(0.5) {
+			text = c37Decorate(r, text)
+		}
+		if r.Chance(0.12) {
+			out = append(out, c37ArrowHistory(r.Fork(), text, r.Range(2, 10), "arrow")...)
+			continue
+		}
 		out = append(out, c37History(r.Fork(), text, r.Range(1, 20), fmt.Sprintf("rich%d", rich), 0.25)...)
 	}
 	return out
